@@ -208,7 +208,7 @@ def lb3(F, R):
         src = parse[0][2][0] if parse[0][2] else None
         skip1 = src is not None and any(x[0] == "adapt" and x[1] == "skip" and strip_load(x[3][0]) == ("const", 1) and
                                         mentions(x[2], lambda y: y[0] == "iter" and y[2] == "chars") for x in walk(src))
-        strip = src is not None and mentions(src, lambda x: x[0] == "call" and x[1].split("::")[-1] in ("strip_prefix", "trim_start_matches"))
+        strip = src is not None and mentions(src, lambda x: x[0] == "call" and x[1].split("::")[-1] in ("strip_prefix",))
         if not (skip1 or strip):
             R.bad("LB3", "LB3/Label::from_str/alpha-tail", b.where(site),
                   "the number parsed is not the text after the alpha sign (exactly one character skipped)", {"parsed": show(src, b) if src else None})
